@@ -102,6 +102,23 @@ def analyse(run: Run, rec: sym.Record, module: str, scope: str, event_params: Se
         pth = e.path if e.path is not None else e.base
         if e.kind.startswith("memo-"):
             continue            # a store into a table proved to be a pure memo (vstatic/memo.py): not state
+        if pth is not None and state_params and e.kind in ("sub-store", "del-sub", "mut-call") and any(x.op == "widen" for x in sym.walk(pth)):
+            # a write through a name that a loop over the whole table rebinds (`for windows in state.values(): ...` and then
+            # `windows[code] = []`): after the loop it names the entry of whichever thread came last, not the emitting one's
+            res = sym.resolve_widens(rec, pth)
+            stray = [x for x in sym.walk(res) if x.op == "elem" and isinstance(x.a[0], T) and x.a[0].op == "call"
+                     and x.a[0].a[0].op == "attr" and x.a[0].a[0].a[1] in ("values", "items")
+                     and x.a[0].a[0].a[0].op == "param" and x.a[0].a[0].a[0].a[0] in state_params
+                     and (len(x.a) < 2 or x.a[1] not in e.loops)]
+            if stray:
+                k_ = (e.func, "stray", e.lineno)
+                if k_ not in seen:
+                    seen.add(k_)
+                    run.ob("R1", module, e.func.rsplit(".", 1)[-1], f"{e.kind} at line {e.lineno}: the entry written is the emitting thread's", False,
+                           f"{e.func.rsplit('.', 1)[-1]} writes through a name that a loop over {sym.pretty(stray[0].a[0])[:40]} has rebound: after "
+                           f"that loop it is the entry of the thread that comes last in the table, so a record of one thread changes the "
+                           f"windows of another - which one depends on the order the threads were first seen", line=e.lineno,
+                           witness="two threads with an open call each; the first restarts its call")
         if e.kind == "global":
             run.ob("R3", module, scope, f"global {e.key}", False,
                    f"{scope} declares `global {e.key}`: module-level state shared by all threads", line=e.lineno)
@@ -196,9 +213,15 @@ def analyse(run: Run, rec: sym.Record, module: str, scope: str, event_params: Se
         if c.func.op == "attr" and c.func.a[1] in ("get",) and c.args:
             keyed_calls.append(POp("sub", c.func.a[0], c.args[0], c.pc, c.loops, c.trys, c.seq, c.where, c.lineno, c.col,
                                    c.func.a[0]))
+    # a counter (`self.n += 1`, `self.n = self.n + k`) reads its slot only to write it back: nothing else depends on it
+    counters = {(e.key, e.lineno) for e in rec.effects if e.kind == "attr-store" and (e.path or e.base) in (PARSER, SELF)
+                and (e.aug is not None or (e.value is not None and e.value.op == "bin" and e.value.a[0] in ("+", "-")
+                                           and T("attr", (e.path or e.base, e.key)) in (e.value.a[1], e.value.a[2])))}
     for p in list(rec.pops) + keyed_calls:
         base = p.path if p.path is not None else p.base
         if p.kind == "attr" and base in (PARSER, SELF):
+            if (p.key, p.lineno) in counters:
+                continue
             slots_read.setdefault(p.key, set()).add((module, p.func.rsplit(".", 1)[-1]))
         if p.kind == "sub":
             root, steps = chain_of(base)
